@@ -59,7 +59,7 @@ def shrink_steps(trace, test, simplify, budget):
     cur = list(trace)
     changed = True
     rounds = 0
-    while changed and rounds < 4:
+    while changed and rounds < 40:
         changed = False
         rounds += 1
         for i in range(len(cur)):
